@@ -36,7 +36,14 @@ func (e *kvElection) validationLoop(ctx context.Context, termToken string) {
 				return
 			}
 
-			validationCtx, cancel := context.WithTimeout(ctx, defaultValidationTimeout)
+			// The read gets as long as a heartbeat update does, and never less than the
+			// default: a store that answers within half a heartbeat interval keeps the
+			// record refreshed, so it must not fail validation by timing out either.
+			validationTimeout := e.cfg.HeartbeatInterval / 2
+			if validationTimeout < defaultValidationTimeout {
+				validationTimeout = defaultValidationTimeout
+			}
+			validationCtx, cancel := context.WithTimeout(ctx, validationTimeout)
 			isValid, err := e.validateToken(validationCtx)
 			cancel()
 
